@@ -503,6 +503,9 @@ func unpack_iterable(vm *Vm, v py.Object, argcnt int, argcntafter int, sp int) e
 		w, err := py.Next(it)
 		if err != nil {
 			/* Iterator done, via error or exhaustion. */
+			if !py.IsException(py.StopIteration, err) {
+				return err
+			}
 			return py.ExceptionNewf(py.ValueError, "need more than %d value(s) to unpack", i)
 		}
 		sp--
@@ -513,6 +516,9 @@ func unpack_iterable(vm *Vm, v py.Object, argcnt int, argcntafter int, sp int) e
 		/* We better have exhausted the iterator now. */
 		_, finished := py.Next(it)
 		if finished != nil {
+			if !py.IsException(py.StopIteration, finished) {
+				return finished
+			}
 			return nil
 		}
 		return py.ExceptionNewf(py.ValueError, "too many values to unpack (expected %d)", argcnt)
@@ -1217,6 +1223,10 @@ func do_JUMP_ABSOLUTE(vm *Vm, target int32) error {
 func do_FOR_ITER(vm *Vm, delta int32) error {
 	r, finished := py.Next(vm.TOP())
 	if finished != nil {
+		// Only StopIteration ends the loop - any other error propagates
+		if !py.IsException(py.StopIteration, finished) {
+			return finished
+		}
 		vm.DROP()
 		vm.frame.Lasti += delta
 	} else {
